@@ -12,19 +12,22 @@ import (
 // starts (arguments that depend on run-time state are stored raw and reduced
 // when executed).
 type cycle struct {
-	handle  int // 0 shared pointer, 1 the task's own by-value copy, 2 a fresh by-value copy made now
-	uses    []useOp
-	inner   bool // sample-at-a-time loops offer inner yield points
-	hold    int
-	putMode int // 0 put as is, 1 put Slice(0,n), 2 forget
-	putArg  uint64
-	second  bool // hold a second buffer during this cycle
+	handle   int // 0 shared pointer, 1 the task's own by-value copy, 2 a fresh by-value copy made now
+	uses     []useOp
+	inner    bool // sample-at-a-time loops offer inner yield points
+	hold     int
+	putMode  int  // 0 put as is, 1 put Slice(0,n), 2 forget, 3 hand the buffer to another task
+	fromMail bool // start the cycle with a buffer another task handed over, if there is one
+	putArg   uint64
+	second   bool // hold a second buffer during this cycle
 }
 
 const (
 	evGet = iota
 	evPut
 	evForget
+	evTake // received from another task (not from the pool)
+	evGive // handed to another task
 )
 
 type poolEvent struct {
@@ -103,7 +106,10 @@ func (h *H[T]) C11(rc *runCtx) *Violation {
 				cy.putMode = 1
 			case 7:
 				cy.putMode = 2
+			case 4:
+				cy.putMode = 3
 			}
+			cy.fromMail = prog.Draw(4) == 3
 			cy.putArg = uint64(prog.Draw(1 << 16))
 			cy.second = prog.Draw(6) == 5
 			estSteps += 8 + len(cy.uses) + cy.hold
@@ -145,14 +151,15 @@ func (h *H[T]) C11(rc *runCtx) *Violation {
 	// the harness itself shares nothing between tasks.
 	taskOps := make([]int, g)
 	taskTwo := make([]int64, g)
+	taskHanded := make([]int64, g)
 	for ti := 0; ti < g; ti++ {
 		ti := ti
 		ts := &taskState{}
 		states[ti] = ts
 		own := pa // the task's own copy of the allocator value (made before the tasks start)
 		sim.Go(spA("caller%d", ti), func(t *simrt.Task) {
-			ops, two := 0, int64(0)
-			defer func() { taskOps[ti], taskTwo[ti] = ops, two }()
+			ops, two, handed := 0, int64(0), int64(0)
+			defer func() { taskOps[ti], taskTwo[ti], taskHanded[ti] = ops, two, handed }()
 			fail := func(v *Violation) {
 				if ts.viol == nil {
 					ts.viol = v
@@ -212,7 +219,11 @@ func (h *H[T]) C11(rc *runCtx) *Violation {
 				}()
 				return ok
 			}
+			var verifyAs func(b *signal.Buffer[T], cy *cycle, st, sc, cyc int) bool
 			verify := func(b *signal.Buffer[T], cy *cycle, cyc, which int) bool {
+				if which == 0 {
+					return verifyAs(b, cy, ti, cyc, cyc)
+				}
 				ok := true
 				func() {
 					defer func() {
@@ -236,7 +247,43 @@ func (h *H[T]) C11(rc *runCtx) *Violation {
 				}()
 				return ok
 			}
+			verifyAs = func(b *signal.Buffer[T], cy *cycle, st, sc, cyc int) bool {
+				ok := true
+				func() {
+					defer func() {
+						if r := recover(); r != nil {
+							fail(violf("ownership-lost", "task %d cycle %d: re-reading the buffer it holds panicked: %v", ti, cyc, r))
+							ok = false
+						}
+					}()
+					f := fullView(b)
+					for i := 0; i < f.Len(); i++ {
+						if got, want := bitsOf(f.Sample(i)), bitsOf(stampVal[T](st, sc, 0, i)); got != want {
+							fail(violf("ownership-lost",
+								"task %d cycle %d: position %d of the buffer it holds (obj#%d, stamped by task %d) reads %#x, the stamp was %#x: another party wrote into storage this task holds",
+								ti, cyc, i, sim.ObjID(unsafe.Pointer(b)), st, got, want))
+							ok = false
+							return
+						}
+						if cy.inner {
+							simrt.Point()
+						}
+					}
+				}()
+				return ok
+			}
 			release := func(b *signal.Buffer[T], hdr *signal.Buffer[T], cy *cycle, cyc int) {
+				if cy.putMode == 3 {
+					t.Yield(sPut)
+					id := sim.ObjID(unsafe.Pointer(hdr))
+					ts.events = append(ts.events, poolEvent{step: t.Step, task: ti, kind: evGive, obj: id})
+					if b != hdr {
+						ts.events = append(ts.events, poolEvent{step: t.Step, task: ti, kind: evGive, obj: sim.ObjID(unsafe.Pointer(b))})
+					}
+					sim.Tracef("  task %d cycle %d: hands obj#%d over to whoever takes it", ti, cyc, sim.ObjID(unsafe.Pointer(b)))
+					sim.HandoffGive(unsafe.Pointer(b), ti, cyc)
+					return
+				}
 				if cy.putMode == 2 {
 					t.Yield(sForget)
 					ts.events = append(ts.events, poolEvent{step: t.Step, task: ti, kind: evForget, obj: sim.ObjID(unsafe.Pointer(hdr))})
@@ -273,9 +320,28 @@ func (h *H[T]) C11(rc *runCtx) *Violation {
 
 			for cyc := range progs[ti] {
 				cy := &progs[ti][cyc]
-				b, ok := acquire(cy, cyc, 0)
+				var b *signal.Buffer[T]
+				ok := false
+				if cy.fromMail {
+					t.Yield(sGet)
+					if p, gt, gc := sim.HandoffTake(); p != nil {
+						// A buffer another task obtained and stamped: it must
+						// arrive exactly as that task left it.
+						b = (*signal.Buffer[T])(p)
+						ts.events = append(ts.events, poolEvent{step: t.Step, task: ti, kind: evTake, obj: sim.ObjID(p)})
+						sim.Tracef("  task %d cycle %d: takes obj#%d handed over by task %d", ti, cyc, sim.ObjID(p), gt)
+						handed++
+						t.Yield(sVerify)
+						if !verifyAs(b, cy, gt, gc, cyc) {
+							return
+						}
+						ok = true
+					}
+				}
 				if !ok {
-					return
+					if b, ok = acquire(cy, cyc, 0); !ok {
+						return
+					}
 				}
 				hdr := b
 				var b2 *signal.Buffer[T]
@@ -315,7 +381,11 @@ func (h *H[T]) C11(rc *runCtx) *Violation {
 				}
 				release(b, hdr, cy, cyc)
 				if b2 != nil {
-					release(b2, b2, cy, cyc)
+					cy2 := *cy
+					if cy2.putMode == 3 {
+						cy2.putMode = 0 // only the first buffer is ever handed over
+					}
+					release(b2, b2, &cy2, cyc)
 				}
 			}
 		})
@@ -326,6 +396,7 @@ func (h *H[T]) C11(rc *runCtx) *Violation {
 	for ti := range states {
 		rc.ops += taskOps[ti]
 		rc.probes[pTwoBuffersHeld] += taskTwo[ti]
+		rc.probes[pHandedOver] += taskHanded[ti]
 	}
 	var first *Violation
 	firstStep := 1 << 62
@@ -350,10 +421,17 @@ func (h *H[T]) C11(rc *runCtx) *Violation {
 	lastPut := map[int]int{} // obj -> task that put it last
 	putStep := map[int]int{} // obj -> step of that put
 	holding := make([]int, len(states))
+	inTransit := map[int]bool{} // handed over, not yet taken (or never taken: then held for ever)
 	recycles := 0
 	for _, e := range all {
 		switch e.kind {
 		case evGet:
+			if inTransit[e.obj] {
+				v := violf("held-twice", "step %d: Get handed obj#%d to task %d while it is being handed from one task to another (obtained and not yet put back)", e.step, e.obj, e.task)
+				if e.step < firstStep {
+					first, firstStep = v, e.step
+				}
+			}
 			if other, held := holder[e.obj]; held {
 				v := violf("held-twice", "step %d: Get handed obj#%d to task %d while task %d still holds it (obtained and not yet put back)", e.step, e.obj, e.task, other)
 				if e.step < firstStep {
@@ -398,6 +476,22 @@ func (h *H[T]) C11(rc *runCtx) *Violation {
 				lastPut[e.obj] = e.task
 				putStep[e.obj] = e.step
 			}
+		case evTake:
+			delete(inTransit, e.obj)
+			if other, held := holder[e.obj]; held {
+				v := violf("held-twice", "step %d: task %d took obj#%d from a hand-over while task %d still holds it", e.step, e.task, e.obj, other)
+				if e.step < firstStep {
+					first, firstStep = v, e.step
+				}
+			}
+			holder[e.obj] = e.task
+			holding[e.task]++
+		case evGive:
+			if t, ok := holder[e.obj]; ok && t == e.task {
+				delete(holder, e.obj)
+				holding[e.task]--
+			}
+			inTransit[e.obj] = true
 		case evForget:
 			// never returned: the hold lasts for ever; the pool must not hand it out again
 		}
